@@ -262,10 +262,12 @@ fn parse_reference(s: &str) -> Result<CellReferenceRC, ParseReferenceError> {
     let mut column = "".to_string();
     let mut row = "".to_string();
     let mut state = "sheet"; // "sheet", "col", "row"
-    for ch in s.chars() {
+    // A sheet name may contain '!': the cell reference starts after the last one
+    let separator = s.rfind('!');
+    for (index, ch) in s.char_indices() {
         match state {
             "sheet" => {
-                if ch == '!' {
+                if Some(index) == separator {
                     state = "col"
                 } else {
                     sheet_name.push(ch);
